@@ -281,15 +281,18 @@ type schema struct {
 	kinds    []kind
 	nullable []bool
 	long     []bool // string/bytes fields with a long shared prefix
+	huge     []bool // string/bytes fields whose every value carries a ~5 KB prefix: one key alone can cross a chunk boundary
 	desc     *val.TupleDesc
 }
+
+var hugePrefix = strings.Repeat("0123456789abcdefghijklmnopqrstuvwxyz/HUGE-KEY/", 110) // 5060 bytes
 
 func newSchema(kinds []kind, nullable, long []bool) *schema {
 	types := make([]val.Type, len(kinds))
 	for i, k := range kinds {
 		types[i] = val.Type{Enc: k.enc(), Nullable: nullable[i]}
 	}
-	return &schema{kinds: kinds, nullable: nullable, long: long, desc: val.NewTupleDescriptor(types...)}
+	return &schema{kinds: kinds, nullable: nullable, long: long, huge: make([]bool, len(kinds)), desc: val.NewTupleDescriptor(types...)}
 }
 
 func (s *schema) String() string {
@@ -298,6 +301,9 @@ func (s *schema) String() string {
 		p := k.String()
 		if s.long[i] {
 			p += "(long)"
+		}
+		if s.huge[i] {
+			p += "(huge)"
 		}
 		if s.nullable[i] {
 			p += "?"
@@ -414,7 +420,8 @@ func pickKind(r *rand.Rand) kind {
 }
 
 // genKeySchema: 1..3 fields from every encoding family; ~30 % of fields nullable.
-func genKeySchema(r *rand.Rand, wantLarge bool) *schema {
+func genKeySchema(r *rand.Rand, poolWant int) *schema {
+	wantLarge := poolWant > 3000
 	nf := 1 + r.Intn(3)
 	kinds := make([]kind, nf)
 	nullable := make([]bool, nf)
@@ -438,7 +445,16 @@ func genKeySchema(r *rand.Rand, wantLarge bool) *schema {
 			kinds[nf-1] = []kind{kInt32, kInt64, kUint32, kString, kDatetime, kDecimal}[r.Intn(6)]
 		}
 	}
-	return newSchema(kinds, nullable, long)
+	sch := newSchema(kinds, nullable, long)
+	if poolWant >= 4 && poolWant <= 80 && r.Intn(4) == 0 {
+		// giant keys (size-forced boundaries at every level, the degenerate-internal-node rule): small pools only
+		i := r.Intn(nf)
+		kinds[i] = []kind{kString, kBytes}[r.Intn(2)]
+		long[i] = false
+		sch = newSchema(kinds, nullable, long)
+		sch.huge[i] = true
+	}
+	return sch
 }
 
 // keyPool is a set of distinct keys sorted by the MODEL comparison. The rank of a key in the pool is its
@@ -495,10 +511,14 @@ func genKeyPool(r *rand.Rand, ns tree.NodeStore, sch *schema, want int) *keyPool
 		if sch.nullable[i] && r.Intn(10) == 0 {
 			return nil
 		}
-		if ex := sch.kinds[i].extremes(); len(ex) > 0 && r.Intn(40) == 0 {
+		if ex := sch.kinds[i].extremes(); len(ex) > 0 && r.Intn(40) == 0 && !sch.huge[i] {
 			return ex[r.Intn(len(ex))]
 		}
-		return sch.kinds[i].fromOrdinal(r.Int63n(doms[i]), doms[i], sch.long[i])
+		v := sch.kinds[i].fromOrdinal(r.Int63n(doms[i]), doms[i], sch.long[i])
+		if sch.huge[i] {
+			v = hugePrefix + v.(string)
+		}
+		return v
 	}
 	for tries := 0; len(all) < want && tries < want*6+50; tries++ {
 		v := make([]any, nf)
@@ -704,7 +724,7 @@ func (w *world) vd() *val.TupleDesc { return w.vp.sch.desc }
 // genWorld makes a key pool of about poolWant keys and a value pool of the given shape.
 func genWorld(r *rand.Rand, poolWant int, shape valShape, nvals int) *world {
 	ns := tree.NewTestNodeStore()
-	sch := genKeySchema(r, poolWant > 3000)
+	sch := genKeySchema(r, poolWant)
 	kp := genKeyPool(r, ns, sch, poolWant)
 	vp := genValPool(r, ns, shape, nvals)
 	return &world{ns: ns, kp: kp, vp: vp, desc: fmt.Sprintf("key%s val=%s pool=%d", sch, vp.desc, kp.n())}
@@ -782,6 +802,7 @@ type shapeInfo struct {
 	leaves     int
 	nodes      int
 	boundaries []int         // pool ranks of the LAST key of every leaf (chunk boundaries)
+	upper      []int         // pool ranks of the last key of every internal non-root node (boundaries of whole subtrees)
 	firsts     []int         // pool ranks of the FIRST key of every leaf
 	leafHashes map[hash.Hash]struct{}
 	allHashes  map[hash.Hash]struct{}
@@ -792,6 +813,11 @@ func (w *world) shape(m prolly.Map) *shapeInfo {
 	err := m.WalkNodes(bg, func(_ context.Context, nd *tree.Node) error {
 		si.nodes++
 		si.allHashes[nd.HashOf()] = struct{}{}
+		if !nd.IsLeaf() && nd.HashOf() != m.HashOf() && nd.Count() > 0 {
+			if i, ok := w.kp.byBytes[string(nd.GetKey(nd.Count()-1))]; ok {
+				si.upper = append(si.upper, i)
+			}
+		}
 		if nd.IsLeaf() {
 			si.leaves++
 			si.leafHashes[nd.HashOf()] = struct{}{}
